@@ -1064,6 +1064,19 @@ func buildExtras(c *core.Ctx) {
 					problems = append(problems, name+" is not called under `s.protocol == "+proto+"`")
 					continue
 				}
+				// ... for the candidate's own coding, over the candidate's own text
+				if len(call.Call.Args) == 2 {
+					coding := call.Call.Args[0]
+					if ta, isTA := coding.(*ssa.TypeAssert); isTA {
+						coding = ta.X
+					}
+					if !isRecvFieldLoad(coding, r, "msgFmt") {
+						problems = append(problems, "the codec built by "+name+" is not for the candidate's own coding (s.msgFmt)")
+					}
+					if !isRecvFieldLoad(call.Call.Args[1], r, "content") {
+						problems = append(problems, "the codec built by "+name+" does not encode the candidate's text (s.content)")
+					}
+				}
 				// its result is the codec that is used (an edge of the codec phi)
 				used := false
 				if call.Referrers() != nil {
